@@ -351,7 +351,9 @@ impl FramebufferType<'_> {
                 // TODO we can create a struct for this and implement
                 //  DynSizedStruct for it to leverage the already existing
                 //  functionality
-                let num_colors = palette.len() as u16;
+                // The color count is a u16 in the tag.
+                let num_colors = u16::try_from(palette.len())
+                    .expect("a framebuffer palette can hold at most 65535 colors");
                 data.extend(&num_colors.to_ne_bytes());
                 for color in *palette {
                     let serialized_color = [color.red, color.green, color.blue];
